@@ -82,7 +82,14 @@ def edge_diffs(E, O, spec=None):
     """E.edges authoritative except fallthroughs of instructions in E.optional_ft."""
     out = list()
     zero = set(getattr(O, "zero_blocks", ()))
-    ee = {(a, b, c, d, _norm_t(t)) for (a, b, c, d, t) in E.edges}
+    def _exp_t(t):
+        # a target label that (after deletions) designates data or the end of the section has no
+        # code block at its position: the only thing a CFG edge can then lead to is a proxy
+        if isinstance(t, tuple) and (t not in E.insns or E.insns[t]["bk"] != "c"):
+            return "proxy"
+        return _norm_t(t)
+
+    ee = {(a, b, c, d, _exp_t(t)) for (a, b, c, d, t) in E.edges}
     oo = set()
     for a, b, c, d, t in O.edges:
         if b == "Fallthrough" and a in E.optional_ft and (isinstance(t, str) or t in zero or t not in E.insns or E.insns[t]["bk"] != "c"):
@@ -370,7 +377,7 @@ def symexpr_diffs(E, O):
                 out.append(D("symexpr-wrong", at=list(key), expected=list(e), observed=list(o[:4]), r_what="symbol" if o[0] != en else "addend"))
             elif len(e) > 3 and tuple(e[3]) != tuple(o[3]):
                 out.append(D("symexpr-attributes", at=list(key), expected=list(e[3]), observed=list(o[3])))
-            elif o[2] != e[2]:
+            elif e[2] is not None and o[2] != e[2]:
                 out.append(D("symexpr-size", at=list(key), expected=e[2], observed=o[2], r_obs="missing" if o[2] is None else "wrong"))
     return out
 
@@ -387,6 +394,10 @@ def ann_diffs(E, O):
 
 def functable_diffs(E, O):
     out = []
+    # delete_function replaces every reference by proxies: nothing of the function may stay behind,
+    # not even a kept zero-sized block
+    for f in sorted(set(getattr(E, "deleted_functions", ())) & set(getattr(O, "func_hollow", ()))):
+        out.append(D("function-left-hollow-after-delete_function", r_func=f))
     if E.func_names != O.func_names:
         for f in sorted(E.func_names - O.func_names):
             out.append(D("function-vanished", r_func=f))
@@ -395,6 +406,9 @@ def functable_diffs(E, O):
     for f in sorted(E.func_names & O.func_names):
         e = E.func_entries.get(f, set())
         o = O.func_entries.get(f, set())
+        zero = set(getattr(O, "zero_blocks", ()))
+        # an entry role left on a kept zero-sized block (documented leftover) is not an instruction's
+        o = {p_ for p_ in o if p_ in e or p_ not in zero}
         if e != o:
             out.append(D("function-entries", r_func=f, expected=sorted(e), observed=sorted(o), r_rel="missing" if e - o and not o - e else "extra" if o - e and not e - o else "different"))
     return out
